@@ -21,6 +21,7 @@ import (
 	"encoding/json"
 	"errors"
 	"fmt"
+	"github.com/tigerwill90/fox/clientip"
 	"io"
 	"log"
 	"log/slog"
@@ -70,6 +71,9 @@ type ResolverCfg struct {
 	Zone   string `json:"zone,omitempty"`
 	Err    string `json:"err,omitempty"`
 	WithIP bool   `json:"with_ip,omitempty"`
+	// Chain (mode "fail"): the failing resolver is a real clientip.Chain of two single-header resolvers whose headers the
+	// request does not carry, so the failure is the chain's own joined error
+	Chain bool `json:"chain,omitempty"`
 }
 
 // Op is one step of a handler behaviour.
@@ -104,13 +108,13 @@ type Case struct {
 	RawPath string `json:"raw_path,omitempty"`
 	// SwapWriter: before doing anything else the handler replaces the context's writer (Context.SetWriter) by a fresh one
 	// built on the raw underlying writer, and answers through it: the record carries what that writer recorded.
-	SwapWriter bool        `json:"swap_writer,omitempty"`
+	SwapWriter bool `json:"swap_writer,omitempty"`
 	// LateDebug: the slog handler refuses DEBUG records while the middleware and the router are being built and accepts every
 	// level from then on (a slog.LevelVar lowered at run time): which records a handler accepts is its answer at logging time.
 	LateDebug bool `json:"late_debug,omitempty"`
 	// Mounted: the handler does not answer itself but enters a second router with its own c.Writer() and request (a mounted
 	// sub-router); the script runs in that router's handler. The record of the outer Logger carries what was sent all the same.
-	Mounted bool `json:"mounted,omitempty"`
+	Mounted    bool        `json:"mounted,omitempty"`
 	Global     ResolverCfg `json:"global_resolver"`
 	Route      ResolverCfg `json:"route_resolver"`
 	Method     string      `json:"method"`
@@ -283,8 +287,8 @@ type capture struct {
 func (h capture) Enabled(_ context.Context, l slog.Level) bool {
 	return h.open == nil || *h.open || l >= slog.LevelInfo
 }
-func (h capture) WithAttrs([]slog.Attr) slog.Handler       { return h }
-func (h capture) WithGroup(string) slog.Handler            { return h }
+func (h capture) WithAttrs([]slog.Attr) slog.Handler { return h }
+func (h capture) WithGroup(string) slog.Handler      { return h }
 func (h capture) Handle(_ context.Context, r slog.Record) error {
 	h.r.seq++
 	rec := record{seq: h.r.seq, level: r.Level, msg: r.Message, attrs: map[string]slog.Value{}}
@@ -313,6 +317,13 @@ func mkResolver(rc ResolverCfg) fox.ClientIPResolver {
 			return &net.IPAddr{IP: net.ParseIP(rc.IP), Zone: rc.Zone}, nil
 		})
 	case "fail":
+		if rc.Chain {
+			a, err1 := clientip.NewSingleIPHeader("X-C20-Absent-One")
+			b, err2 := clientip.NewSingleIPHeader("X-C20-Absent-Two")
+			if err1 == nil && err2 == nil {
+				return clientip.NewChain(a, b)
+			}
+		}
 		return fox.ClientIPResolverFunc(func(fox.Context) (*net.IPAddr, error) {
 			if rc.WithIP {
 				return &net.IPAddr{IP: net.ParseIP(rc.IP), Zone: rc.Zone}, errors.New(rc.Err)
@@ -964,7 +975,9 @@ func genResolver(t *rapid.T, modes []string, ipIdx int, label string) ResolverCf
 		rc.IP, rc.Zone = ipPool[ipIdx].IP, ipPool[ipIdx].Zone
 	case "fail":
 		rc.Err = gen.Pick(t, errPool, label+"Err")
-		if gen.Chance(t, 1, 3, label+"WithIP") {
+		if gen.Chance(t, 1, 4, label+"Chain") {
+			rc.Chain = true
+		} else if gen.Chance(t, 1, 3, label+"WithIP") {
 			rc.WithIP = true
 			rc.IP, rc.Zone = ipPool[ipIdx].IP, ipPool[ipIdx].Zone
 		}
